@@ -319,7 +319,7 @@ EnumRepairedFrom(lv, kn, n, cum, acc) ==
          IN EnumRepairedFrom(lv, kn, n + 1, cum + d, Append(acc, cum + d))
 (* which of the two the A-layer follows: "code" = cnvlib as it is now; switch to "repaired"  *)
 (* when the repair is committed (then the two findings' triggers no longer fire)             *)
-EnumVariant == "code"
+EnumVariant == "repaired"
 EnumerateChanges(lv, kn, sc) == IF EnumVariant = "code" THEN EnumFrom(lv, kn, sc, 1, 0, <<>>)
                                 ELSE EnumRepairedFrom(lv, kn, 1, 0, <<>>)
 (* data.groupby("_group")[col].ffill(): <<known, value>> per row *)
